@@ -375,6 +375,8 @@ class C09(Prop):
             if len(res.samples) < 6 and i % max(1, n // 6) == 0:
                 res.samples.append({"case": case[:200], "impl": impl[i][:300], "model": (model[i][:300] if model and i < len(model) else None)})
             if not M or "spec.strict" not in M:
+                if model is not None:
+                    res.model_disagreements.append(dict(key="c09:model-output-missing", case=case, detail=str(model[i] if i < len(model) else None)[:100]))
                 continue
             ss = M["spec.strict"]
             s_ok = ss.startswith("S:")
@@ -431,7 +433,249 @@ class C09(Prop):
                 res.adequacy.append(f"{case[:100]}: serde_json {I['ref'][:60]} spec {exp_strict[:60]}")
 
 
-REGISTRY = {"C02": C02(), "C20": C20(), "C09": C09()}
+# ------------------------------------------------------------------------------------------
+# C10 / C14 (path lookups)
+
+def spec_get_expect(M):
+    """what a *checked* get must answer, from the specification's verdict"""
+    sp = M.get("spec", "")
+    if sp.startswith("F:") and M.get("pre8") == "A":
+        return sp
+    return "E"
+
+
+class C10(Prop):
+    rule = ("generated well-formed documents (nested, whitespace variants, escaped keys, long strings full of brackets/quotes/backslash runs "
+            "across 32/64-byte edges) x up to 4 (quick) / 8 (thorough) of their valid paths, a quarter of them perturbed (missing key, "
+            "out-of-range index, wrong kind, empty key); non-trivial = the path has at least one step and resolves")
+    trusted = ["unchecked variants (skip_container bitmaps, get_next_token, skip_string_unchecked) are tied by correspondence only on "
+               "well-formed input; their bit-level lemmas are in Thm/C17"]
+    assumptions = ["documents are duplicate-free except the explicit first-member-wins cases"]
+    CHECKED = ["get", "get_slice", "get_bytes", "get_str", "get_string", "get_faststr"]
+    UNCHECKED = ["getu", "getu_str"]
+
+    def explore(self, ctx, res):
+        self._explore(ctx, res, "c10", wellformed=True)
+
+    def _explore(self, ctx, res, name, wellformed):
+        cases_path = generate(ctx, name)
+        impl, model, crashed, err = run_stream(ctx, name, cases_path)
+        with open(cases_path) as f:
+            cases = f.read().splitlines()
+        if crashed or len(impl) != len(cases):
+            idx = min(len(impl), len(cases) - 1)
+            res.oracle_failures.append(dict(key=f"{name}:process-abort", case=cases[idx], detail=f"harness died after {len(impl)} cases: {err[-300:]}"))
+        n = min(len(impl), len(cases))
+        pid = self.pid
+        span_queries = []
+        for i in range(n):
+            res.evaluations += 1
+            case = cases[i]
+            I = ctx["parse_fields"](impl[i])
+            M = ctx["parse_fields"](model[i]) if model and i < len(model) else {}
+            if len(res.samples) < 6 and i % max(1, n // 6) == 0:
+                res.samples.append({"case": case[:200], "impl": impl[i][:300], "model": (model[i][:200] if model and i < len(model) else None)})
+            if "spec" not in M:
+                if model is not None:
+                    res.model_disagreements.append(dict(key=f"{name}:model-output-missing", case=case, detail=str(model[i] if i < len(model) else None)[:100]))
+                continue
+            t = unhex(case.split(" ")[1])
+            path = case.split(" ")[2]
+            sp = M["spec"]
+            res.distribution["spec=" + sp.split(":")[0]] += 1
+            if sp.startswith("F:") and path != "-":
+                res.nontrivial(case)
+            want = spec_get_expect(M)
+            # correspondence: model of the checked walker vs implementation (verdict, span, not-found category)
+            mg = M["m.get"]
+            for fld, mfld in (("get", "m.get"), ("get_str", "m.get_str")):
+                if fld in I:
+                    got = I[fld]
+                    mm = M[mfld]
+                    mm_c = mm if mm.startswith("F:") else ("E:NotFound" if ":NotFound:" in mm else "E:other")
+                    got_c = got if got.startswith("F:") else ("E:NotFound" if got == "E:NotFound" else ("PANIC" if got == "PANIC" else "E:other"))
+                    if mm_c != got_c:
+                        res.model_disagreements.append(dict(key=f"{name}:{fld}", case=case, detail=f"impl {got} model {mm}"))
+            for fld in self.CHECKED + (self.UNCHECKED if wellformed else []):
+                if fld not in I:
+                    continue
+                got = I[fld]
+                if got == "PANIC":
+                    res.oracle_failures.append(dict(key=f"{pid}|{fld}|panic", case=case, detail="panicked"))
+                    continue
+                if fld in self.UNCHECKED and M.get("wf") != "A":
+                    continue
+                if fld in self.UNCHECKED and not sp.startswith("F:"):
+                    # on well-formed input an unresolvable path must fail (any error)
+                    if got.startswith("F:"):
+                        res.oracle_failures.append(dict(key=f"{pid}|{fld}|finds-nonexistent-path", case=case, detail=f"impl {got} spec {sp}"))
+                    continue
+                exp = want
+                if fld in ("get_str", "get_string", "get_faststr", "getu_str") and sp.startswith("F:"):
+                    exp = sp           # str carriers are valid UTF-8 by type
+                g = got if got.startswith("F:") else "E"
+                if g.startswith("F:hex:") and exp.startswith("F:"):
+                    _, a_, b_ = exp.split(":")
+                    if unhex(g[6:]) == t[int(a_):int(b_)]:
+                        g = exp
+                if g != exp:
+                    cls = "wrong-span" if (g.startswith("F:") and exp.startswith("F:")) else ("returns-value-spec-rejects" if g.startswith("F:") else "fails-on-resolvable-path")
+                    res.oracle_failures.append(dict(key=f"{pid}|{fld}|{cls}", case=case, detail=f"impl {got} spec {sp} pre8={M.get('pre8')}"))
+                if sp in ("missing",) and got.startswith("E:") and got != "E:NotFound" and fld in self.CHECKED:
+                    res.notes.append("") if False else None
+            if wellformed and M.get("wfs") == "A":
+                # DOM / lazy / owned-lazy pointer answer by content
+                if sp.startswith("F:"):
+                    _, a, b = sp.split(":")
+                    raw = t[int(a):int(b)]
+                    for fld in ("lazy",):
+                        if fld in I and I[fld] != "F:" + (raw.hex() or "-"):
+                            res.oracle_failures.append(dict(key=f"{pid}|{fld}.pointer|differs-from-get", case=case, detail=f"{I[fld][:100]} vs raw {raw[:50]!r}"))
+                    for fld in ("dom", "owned"):
+                        if fld in I and not I[fld].startswith("F:"):
+                            res.oracle_failures.append(dict(key=f"{pid}|{fld}.pointer|misses-resolvable-path", case=case, detail=I[fld][:100]))
+                else:
+                    for fld in ("dom", "lazy", "owned"):
+                        if fld in I and I[fld].startswith("F:"):
+                            res.oracle_failures.append(dict(key=f"{pid}|{fld}.pointer|finds-nonexistent-path", case=case, detail=I[fld][:100]))
+                if I.get("same") == "NEQ":
+                    res.oracle_failures.append(dict(key=f"{pid}|get-vs-dom|value-differs", case=case, detail="raw text of get does not parse to the DOM lookup result"))
+            if not wellformed:
+                for fld in ("many",):
+                    v = I.get(fld, "")
+                    if v == "PANIC":
+                        res.oracle_failures.append(dict(key=f"{pid}|{fld}|panic", case=case, detail="panicked"))
+                    if v.startswith("S:"):
+                        spans = [x for x in v[2:].split(",") if x != "N"]
+                        if any("outside" in x for x in spans):
+                            res.oracle_failures.append(dict(key=f"{pid}|{fld}|span-outside-input", case=case, detail=v[:120]))
+                        elif spans:
+                            span_queries.append((i, fld, spans))
+                if I.get("schema") == "PANIC":
+                    res.oracle_failures.append(dict(key=f"{pid}|schema|panic", case=case, detail="panicked"))
+        if span_queries and ctx["driver"]:
+            qp = cases_path + ".spans"
+            with open(qp, "w") as f:
+                for (i, fld, spans) in span_queries:
+                    f.write(f"c14v {cases[i].split(' ')[1]} {','.join(spans)}\n")
+            ctx["run_lines"](ctx["driver"], [], qp, qp + ".out")
+            with open(qp + ".out") as f:
+                outs = f.read().splitlines()
+            for (i, fld, spans), o in zip(span_queries, outs):
+                res.evaluations += 1
+                if "BAD" in o:
+                    res.oracle_failures.append(dict(key=f"{pid}|{fld}|slot-not-wellformed-value", case=cases[i], detail=o[:200]))
+
+
+class C14(C10):
+    rule = ("documents of the C10 generator with one or two random mutations (truncate, delete/substitute/insert a byte or structural "
+            "character, invalid UTF-8, bad escapes, trailing bytes) and sampled prefixes, x paths of the unmutated document; checked get on "
+            "6 carriers, get_many, get_by_schema; non-trivial = the checked walker returns a value")
+    trusted = ["get_many slots are validated span-by-span by the specification (Spec.value + UTF-8 of the prefix); get_by_schema only for "
+               "absence of panics here (its result is decided in C11)"]
+    assumptions = []
+
+    def explore(self, ctx, res):
+        self._explore(ctx, res, "c14", wellformed=False)
+
+
+class C12(Prop):
+    rule = ("containers of every size 0..8 (arrays and objects, nested values, escaped and duplicate keys, whitespace variants, trailing "
+            "bytes after the container), each also with one random mutation and a random truncation; every iterator is drained and polled "
+            "3 more times; non-trivial = at least one item is yielded")
+    trusted = ["unchecked iterators are compared with the checked ones on well-formed containers only"]
+    assumptions = []
+
+    def explore(self, ctx, res):
+        name = "c12"
+        cases_path = generate(ctx, name)
+        impl, model, crashed, err = run_stream(ctx, name, cases_path)
+        with open(cases_path) as f:
+            cases = f.read().splitlines()
+        if crashed or len(impl) != len(cases):
+            idx = min(len(impl), len(cases) - 1)
+            res.oracle_failures.append(dict(key="c12:process-abort", case=cases[idx], detail=f"harness died after {len(impl)} cases: {err[-300:]}"))
+        n = min(len(impl), len(cases))
+        for i in range(n):
+            res.evaluations += 1
+            case = cases[i]
+            I = ctx["parse_fields"](impl[i])
+            M = ctx["parse_fields"](model[i]) if model and i < len(model) else {}
+            if len(res.samples) < 6 and i % max(1, n // 6) == 0:
+                res.samples.append({"case": case[:200], "impl": impl[i][:300], "model": (model[i][:300] if model and i < len(model) else None)})
+            if "spec.arr" not in M:
+                if model is not None:
+                    res.model_disagreements.append(dict(key="c12:model-output-missing", case=case, detail=str(model[i] if i < len(model) else None)[:100]))
+                continue
+            wf = case.split(" ")[2] == "w"
+            t = unhex(case.split(" ")[1])
+            for kind, fields, ufields in (("arr", ["arr", "arr_str", "arr_fs"], ["arr_u", "lv_arr"]), ("obj", ["obj", "obj_str", "obj_bytes"], ["obj_u", "lv_obj"])):
+                sitems, send = M[f"spec.{kind}"].split("|")
+                mitems, mend = M[f"m.{kind}"].split("|")
+                if sitems != "-":
+                    res.nontrivial(case)
+                # model vs spec (the theorem, observed) on valid UTF-8: same items, END iff END
+                if M.get("utf8") == "A" and (mitems, mend == "END") != (sitems, send == "END"):
+                    res.model_disagreements.append(dict(key=f"c12:model-vs-spec:{kind}", case=case, detail=f"{M[f'm.{kind}']} vs {M[f'spec.{kind}']}"))
+                for fld in fields + (ufields if wf else []):
+                    if fld not in I:
+                        continue
+                    v = I[fld]
+                    if v == "PANIC":
+                        res.oracle_failures.append(dict(key=f"C12|{fld}|panic", case=case, detail="panicked"))
+                        continue
+                    if v in ("notarr", "notobj", "R"):
+                        if send == "END":
+                            res.oracle_failures.append(dict(key=f"C12|{fld}|refuses-wellformed-container", case=case, detail=v))
+                        continue
+                    items, end, extra = v.split("|")
+                    if extra != "0":
+                        res.oracle_failures.append(dict(key=f"C12|{fld}|yields-after-end-or-error", case=case, detail=v[:150]))
+                    is_bytes = fld in ("arr", "obj", "obj_bytes")
+                    if fld in ufields and send != "END":
+                        continue
+                    # carriers that are not `str` by type validate UTF-8: items are yielded while the
+                    # text parsed so far is valid UTF-8, then one error
+                    inv = int(M.get("inv", "0"))
+                    sl = [] if sitems == "-" else sitems.split(",")
+                    exp_end = "END" if send == "END" else "E"
+                    if is_bytes and M.get("utf8") == "R":
+                        kept = [x for x in sl if int(x.split(":")[-1]) <= inv]
+                        if len(kept) < len(sl) or send != "END":
+                            exp_end = "E"
+                        sl = kept
+                    # FastStr/Bytes carriers copy short values: those items are reported by content
+                    il = [] if items == "-" else items.split(",")
+                    norm = []
+                    for k_, it in enumerate(il):
+                        parts = it.split(":")
+                        if parts[-1].startswith("hex") and k_ < len(sl):
+                            sp_ = sl[k_].split(":")
+                            if unhex(parts[-1][3:]) == t[int(sp_[-2]):int(sp_[-1])]:
+                                parts = parts[:-1] + sp_[-2:]
+                        norm.append(":".join(parts))
+                    exp_items = ",".join(sl) if sl else "-"
+                    items_n = ",".join(norm) if norm else "-"
+                    g_end = "END" if end == "END" else "E"
+                    if (items_n, g_end) != (exp_items, exp_end):
+                        if g_end == "E" and exp_end == "END":
+                            key = f"C12|{fld}|error-on-wellformed-container"
+                        elif items_n != exp_items:
+                            key = f"C12|{fld}|wrong-items"
+                        else:
+                            key = f"C12|{fld}|no-error-at-violation"
+                        res.oracle_failures.append(dict(key=key, case=case, detail=f"impl {v[:150]} spec {M[f'spec.{kind}'][:150]} inv={inv}"))
+                    # correspondence: model of the checked slice iterator (items + end/error)
+                    if fld in ("arr", "obj"):
+                        me = "END" if mend == "END" else "E"
+                        if (items_n, g_end) != (mitems, me):
+                            res.model_disagreements.append(dict(key=f"c12:{fld}", case=case, detail=f"impl {v[:120]} model {M[f'm.{kind}'][:120]}"))
+                # correspondence of error category for the checked slice iterator is implicit in END/E
+
+
+REGISTRY = {"C02": C02(), "C20": C20(), "C09": C09(), "C10": C10(), "C14": C14(), "C12": C12()}
+for _k, _v in REGISTRY.items():
+    _v.pid = _k
 
 
 def get(pid):
